@@ -532,7 +532,7 @@ class Polygon2D(Base2DIn2D):
         b_pt = Point2D(self.center.x - (final_len / 2), self.center.y - (final_hgt / 2))
         return Polygon2D.from_rectangle(b_pt, Vector2D(0, 1), final_len, final_hgt)
 
-    def pole_of_inaccessibility(self, tolerance):
+    def pole_of_inaccessibility(self, tolerance, holes=None):
         """Get the pole of inaccessibility for the polygon.
 
         The pole of inaccessibility is the most distant internal point from the
@@ -547,6 +547,9 @@ class Polygon2D(Base2DIn2D):
         Args:
             tolerance: The precision to which the pole of inaccessibility
                 will be computed.
+            holes: An optional list of Polygon2D for holes within this polygon.
+                If specified, the pole will also be the most distant point
+                from the outlines of these holes. (Default: None).
         """
         # compute the cell size from the bounding rectangle
         min_x, min_y = self.min.x, self.min.y
@@ -556,12 +559,15 @@ class Polygon2D(Base2DIn2D):
         cell_size = min(width, height)
         h = cell_size / 2.0
         max_dim = max(width, height)
-        if cell_size == 0 or self.area < max_dim * tolerance:
+        area = self.area if not holes else self.area - sum(h.area for h in holes)
+        if cell_size == 0 or area < max_dim * tolerance:
             # degenerate polygon; just return the center
             return self.center
 
         # get an array representation of the polygon and set up the priority queue
         _polygon = tuple(pt.to_array() for pt in self.vertices)
+        _holes = tuple(tuple(pt.to_array() for pt in h.vertices) for h in holes) \
+            if holes else ()
         cell_queue = PriorityQueue()
         tie_break = itertools.count()  # insertion order decides between cells of equal priority
 
@@ -570,14 +576,14 @@ class Polygon2D(Base2DIn2D):
         while x < max_x:
             y = min_y
             while y < max_y:
-                c = _Cell(x + h, y + h, h, _polygon)
+                c = _Cell(x + h, y + h, h, _polygon, _holes)
                 y += cell_size
                 cell_queue.put((-c.max, next(tie_break), c))
             x += cell_size
 
-        best_cell = self._get_centroid_cell(_polygon)
+        best_cell = self._get_centroid_cell(_polygon, _holes)
 
-        bbox_cell = _Cell(min_x + width / 2, min_y + height / 2, 0, _polygon)
+        bbox_cell = _Cell(min_x + width / 2, min_y + height / 2, 0, _polygon, _holes)
         if bbox_cell.d > best_cell.d:
             best_cell = bbox_cell
 
@@ -593,13 +599,13 @@ class Polygon2D(Base2DIn2D):
                 continue
 
             h = cell.h / 2
-            c = _Cell(cell.x - h, cell.y - h, h, _polygon)
+            c = _Cell(cell.x - h, cell.y - h, h, _polygon, _holes)
             cell_queue.put((-c.max, next(tie_break), c))
-            c = _Cell(cell.x + h, cell.y - h, h, _polygon)
+            c = _Cell(cell.x + h, cell.y - h, h, _polygon, _holes)
             cell_queue.put((-c.max, next(tie_break), c))
-            c = _Cell(cell.x - h, cell.y + h, h, _polygon)
+            c = _Cell(cell.x - h, cell.y + h, h, _polygon, _holes)
             cell_queue.put((-c.max, next(tie_break), c))
-            c = _Cell(cell.x + h, cell.y + h, h, _polygon)
+            c = _Cell(cell.x + h, cell.y + h, h, _polygon, _holes)
             cell_queue.put((-c.max, next(tie_break), c))
             num_of_probes += 4
         return Point2D(best_cell.x, best_cell.y)
@@ -2422,7 +2428,7 @@ class Polygon2D(Base2DIn2D):
         new_polygon._is_clockwise = self._is_clockwise
 
     @staticmethod
-    def _get_centroid_cell(polygon):
+    def _get_centroid_cell(polygon, holes=()):
         """Get a Cell object at the centroid of the Polygon2D."""
         area = 0
         x = 0
@@ -2435,8 +2441,8 @@ class Polygon2D(Base2DIn2D):
             area += f * 3
             b = a
         if area == 0:
-            return _Cell(polygon[0][0], polygon[0][1], 0, polygon)
-        return _Cell(x / area, y / area, 0, polygon)
+            return _Cell(polygon[0][0], polygon[0][1], 0, polygon, holes)
+        return _Cell(x / area, y / area, 0, polygon, holes)
 
     @staticmethod
     def _insert_updates_in_order(polygon, polygon_updates):
@@ -2727,6 +2733,7 @@ class _Cell(object):
         y: The Y coordinate of the cell origin.
         h: The dimension of the cell.
         polygon: An array representation of a Polygon2D.
+        holes: An optional tuple of array representations of hole Polygon2Ds.
 
     Properties:
         * x
@@ -2737,27 +2744,28 @@ class _Cell(object):
     """
     __slots__ = ('x', 'y', 'h', 'd', 'max')
 
-    def __init__(self, x, y, h, polygon):
+    def __init__(self, x, y, h, polygon, holes=()):
         self.h = h
         self.y = y
         self.x = x
-        self.d = self._point_to_polygon_distance(x, y, polygon)
+        self.d = self._point_to_polygon_distance(x, y, polygon, holes)
         self.max = self.d + self.h * math.sqrt(2)
 
-    def _point_to_polygon_distance(self, x, y, polygon):
-        """Get the distance from an X,Y point to the edge of a Polygon."""
+    def _point_to_polygon_distance(self, x, y, polygon, holes=()):
+        """Get the distance from an X,Y point to the edge of a Polygon (with holes)."""
         inside = False
         min_dist_sq = inf
 
-        b = polygon[-1]
-        for a in polygon:
+        for ring in (polygon,) + tuple(holes):
+            b = ring[-1]
+            for a in ring:
 
-            if (a[1] > y) != (b[1] > y) and \
-                    (x < (b[0] - a[0]) * (y - a[1]) / (b[1] - a[1]) + a[0]):
-                inside = not inside
+                if (a[1] > y) != (b[1] > y) and \
+                        (x < (b[0] - a[0]) * (y - a[1]) / (b[1] - a[1]) + a[0]):
+                    inside = not inside
 
-            min_dist_sq = min(min_dist_sq, self._get_seg_dist_sq(x, y, a, b))
-            b = a
+                min_dist_sq = min(min_dist_sq, self._get_seg_dist_sq(x, y, a, b))
+                b = a
 
         result = math.sqrt(min_dist_sq)
         if not inside:
